@@ -140,9 +140,11 @@ theorem exprIsNumber_total (env : Env) (vars : List (String × Ty)) : (e : Expr)
       obtain ⟨bl, hl⟩ := exprIsNumber_total env vars l hg.1 hc.1
       obtain ⟨br, hr⟩ := exprIsNumber_total env vars r hg.2 hc.2
       simp only [exprIsNumber, hl]
-      cases bl
+      split
       · exact ⟨false, rfl⟩
-      · exact ⟨br, hr⟩
+      · cases bl
+        · exact ⟨false, rfl⟩
+        · exact ⟨br, hr⟩
 
 theorem exprIsString_total (env : Env) (vars : List (String × Ty)) : (e : Expr) → goodExpr e = true →
     operandAccessErrs env vars e = [] → ∃ b, exprIsString env vars e = some b
